@@ -106,7 +106,7 @@ class C02(Prop):
         # ---- sequences (generator audit, section B)
         for n in range(max(12, budget // 8)):
             spec = F.gen(rng, tier, wide=True, max_variants=2, max_arches=2, max_cell=3)
-            kind = ["modify_after_load", "repair", "twin", "doc"][n % 4]
+            kind = ["modify_after_load", "repair", "twin", "doc", "edit"][n % 5]
             if kind == "modify_after_load":
                 # dump -> load -> MODIFY the loaded object (new images, removals) -> dump -> load: compared with the spec
                 extra = F.gen(rng, tier, wide=True, max_variants=1, max_arches=1, max_cell=2)
@@ -130,6 +130,20 @@ class C02(Prop):
                 yield {"op": "repair", "args": {"spec": spec, "image": i, "field": f, "value": val}}
             elif kind == "twin":
                 yield {"op": "twin", "args": {"spec": spec}}
+            elif kind == "edit":
+                if not spec["adds"]:
+                    continue
+                # a SUCCESSFUL dumps, then a filed image is changed in place to another valid value of a non-identity
+                # attribute (no add / discard in between), then dumps again: the second text describes the object as it is now
+                i = spec["adds"][rng.randrange(len(spec["adds"]))][2]
+                old = spec["pool"][i]
+                f = F.rr(["mtime", "size", "volume_id", "implant_md5", "bootable", "mtime", "size"])
+                val = {"mtime": (old.get("mtime") or 0) + 1 + rng.randrange(10 ** 6), "size": (old.get("size") or 0) + 1 + rng.randrange(10 ** 9),
+                       "volume_id": "EDITED-%d" % rng.randrange(1000), "implant_md5": "%032x" % rng.getrandbits(128),
+                       "bootable": not old.get("bootable")}[f]
+                if isinstance(old.get(f), dict) or old.get(f) == val:
+                    continue
+                yield {"op": "edit", "args": {"spec": spec, "image": i, "field": f, "value": val}}
             else:
                 # a document not written by the library: keys the reader has documented defaults for are absent
                 doc = F.doc_of_spec(spec, F.rr(["1.2", "1.1", "1.2", "2.0"]), keep_defaults=rng.random() < 0.3)
@@ -214,6 +228,18 @@ class C02(Prop):
             if "ok" in out["dumps"]:
                 m2 = im.Images(); m2.loads(out["dumps"]["ok"]); out["loads"] = {"ok": F.snap(m2)}
             return out
+        if case["op"] == "edit":
+            m, objs = F.build(spec)
+            first = guarded_dumps(m)
+            setattr(objs[a["image"]], a["field"], copy.deepcopy(a["value"]))
+            out = {"first": "ok" if "ok" in first else first, "dumps": guarded_dumps(m)}
+            if "ok" in out["dumps"]:
+                m2 = im.Images()
+                try:
+                    m2.loads(out["dumps"]["ok"]); out["loads"] = {"ok": F.snap(m2)}; out["dumps2"] = guarded_dumps(m2)
+                except Exception as e:
+                    out["loads"] = checklib.err_class(e)
+            return out
         if case["op"] == "cycle2":
             base = dict(spec, pool=spec["pool"])
             m, objs = F.build(base)
@@ -246,6 +272,10 @@ class C02(Prop):
         spec = a["spec"]
         if case["op"] == "cycle2":
             return dict(spec, version="1.2", edits=list(spec.get("edits", [])) + a["post"])
+        if case["op"] == "edit":
+            pool = copy.deepcopy(spec["pool"])
+            pool[a["image"]][a["field"]] = copy.deepcopy(a["value"])
+            return dict(spec, pool=pool)
         return spec
 
     def real(self, case):
@@ -287,7 +317,7 @@ class C02(Prop):
     def model_requests(self, case):
         if case["op"] == "doc":
             return [{"op": "images_loads", "args": {"doc": F.enc(case["args"]["doc"])}}]
-        if case["op"] in ("cycle2", "twin", "repair"):
+        if case["op"] in ("cycle2", "twin", "repair", "edit"):
             return [{"op": "images_cycle", "args": {"state": F.model_state(self.final_spec(case))}}]
         return [{"op": "images_cycle", "args": {"state": F.model_state(case["args"]["spec"])}}]
 
@@ -303,7 +333,7 @@ class C02(Prop):
         if case["op"] == "doc":
             r, mo = real_out.get("loads"), model_out.get("loads")
             return None if checklib.canon(r) == checklib.canon(mo) else {"real": r, "model": mo}
-        if case["op"] in ("cycle2", "twin", "repair"):
+        if case["op"] in ("cycle2", "twin", "repair", "edit"):
             if "build" in real_out:
                 return None
             r, mo = real_out.get("dumps"), model_out.get("dumps")
